@@ -158,7 +158,7 @@ def run_driver(bindir, batches_path, root, entries, flags, timeout=900, mode="ru
 
 def judge_batches(chk, recs, tag):
     path = os.path.join(chk.work, "ops_trace_%s.ndjson" % tag)
-    slim = [r if r["ev"] == "geometry" else {"ev": "batch", "panic": r["panic"], "enter": r["enter"], "side_same": r["side_same"], "payload_same": r["payload_same"],
+    slim = [r if r["ev"] in ("geometry", "lap") else {"ev": "batch", "panic": r["panic"], "enter": r["enter"], "side_same": r["side_same"], "payload_same": r["payload_same"],
              "subs": [{k: s[k] for k in ("u", "op", "link", "req", "got_slot")} for s in r["subs"]],
              "cqes": [{"u": c["u"], "res": c["res"]} for c in r["cqes"]],
              "direct": [{"u": d["u"], "res": d["res"], "ran": d["ran"], "revents": d.get("revents") or 0,
@@ -212,18 +212,24 @@ LINE = re.compile(r"^(\d+)\s+(\w+)\((.*)\)\s+= (0x[0-9a-f]+|-?\d+)")
 
 
 def strace_teardown(chk, bindir, entries, flags, with_op, run_id):
+    """set-up (+ one op / one lap over the whole ring) + drop in a child process under strace.  with_op: False, True or "lap".
+    -> (events for UringResTrace or None if the kernel refused the set-up, records printed by the child).
+    A child killed by a signal is data: a `crashed` event."""
     log = os.path.join(chk.work, "strace_%d.txt" % run_id)
+    mode = "2" if with_op == "lap" else ("1" if with_op else "0")
     p = core.run_cmd(["strace", "-f", "-e", "trace=io_uring_setup,mmap,munmap,close,write", "-o", log,
-                      os.path.join(bindir, "uring_ops"), "teardown", str(entries), str(flags), "1" if with_op else "0"], timeout=120, check=False)
-    if p.returncode != 0:
+                      os.path.join(bindir, "uring_ops"), "teardown", str(entries), str(flags), mode], timeout=180, check=False)
+    out = [json.loads(l) for l in p.stdout.splitlines() if l.startswith("{") and l.endswith("}")]
+    logtxt = open(log).read()
+    killed = re.search(r"\+\+\+ killed by (\w+)", logtxt)
+    if p.returncode != 0 and not killed:
         raise core.ToolError("strace/uring_ops teardown failed rc=%s: %s" % (p.returncode, p.stderr[-1500:]))
-    out = [json.loads(l) for l in p.stdout.splitlines() if l.startswith("{")]
-    if not any(o["ev"] == "teardown" for o in out):
+    if not killed and not any(o["ev"] == "teardown" for o in out):
         return None, out
     evs = [{"ev": "reset", "run": run_id, "entries": entries, "flags": flags, "with_op": with_op}]
     phase = None
     single = None
-    for line in open(log):
+    for line in logtxt.splitlines():
         m = LINE.match(line)
         if not m:
             continue
@@ -240,17 +246,24 @@ def strace_teardown(chk, bindir, entries, flags, with_op, run_id):
         if phase is None or phase in ("drop:end", "geom:begin"):
             continue
         if name == "io_uring_setup":
-            evs.append({"ev": "setup", "fd": int(rv)})
             single = "IORING_FEAT_SINGLE_MMAP" in args
+            g = lambda k: int(re.search(r"\b%s=(\d+)" % k, args).group(1)) if re.search(r"\b%s=(\d+)" % k, args) else 0
+            sqe_sz = 128 if flags & SQE128 else 64
+            cqe_sz = 32 if flags & CQE32 else 16
+            need = {"sq": g("array") + g("sq_entries") * 4, "cq": g("cqes") + g("cq_entries") * cqe_sz, "sqes": g("sq_entries") * sqe_sz, "single": bool(single)}
+            evs.append({"ev": "setup", "fd": int(rv), "need": need if int(rv) >= 0 else {"sq": 0, "cq": 0, "sqes": 0, "single": False}})
         elif name == "mmap":
             a = [x.strip() for x in args.split(",")]
             fd = int(a[4]) if re.fullmatch(r"-?\d+", a[4]) else -1
-            evs.append({"ev": "mmap", "fd": fd, "addr": rv, "len": int(a[1]), "off": a[5]})
+            off = {"0": "sq", "0x8000000": "cq", "0x10000000": "sqes"}.get(a[5], a[5])
+            evs.append({"ev": "mmap", "fd": fd, "addr": rv, "len": int(a[1]), "off": off})
         elif name == "munmap":
             a = [x.strip() for x in args.split(",")]
             evs.append({"ev": "munmap", "addr": a[0], "len": int(a[1]), "ret": int(rv)})
         elif name == "close":
             evs.append({"ev": "close", "fd": int(args.strip()), "ret": int(rv)})
+    if killed:
+        evs.append({"ev": "crashed", "where": "setup" if phase == "setup:begin" else "later", "signal": killed.group(1)})
     os.unlink(log)
     evs[0]["single_mmap"] = single
     return evs, out
@@ -437,11 +450,29 @@ def run(tier):
                 tmeta.append((entries, fl, with_op, evs[0]["single_mmap"]))
                 tgeo += [o for o in out if o["ev"] == "geometry"]
                 rid += 1
+    # the whole legal range of ring sizes: set-up, geometry, ONE lap over every slot (the last entries of the submission
+    # index array and the last completion slots included), drop - each in its own process
+    for (entries, fl) in ([(1024, 0), (4096, 0), (32768, 0)] if quick else
+                          [(512, 0), (1024, 0), (1024, SQE128 | CQE32), (2048, 0), (4096, 0), (4096, CQE32), (16384, 0), (32768, 0), (32768, SQE128)]):
+        if fl not in accepted:
+            continue
+        evs, out = strace_teardown(chk, bindir, entries, fl, "lap", rid)
+        if evs is None:
+            skipped.append({"flags": fl, "entries": entries, "why": out})
+            continue
+        truns.append(evs)
+        tmeta.append((entries, fl, "lap", evs[0]["single_mmap"]))
+        tgeo += [o for o in out if o["ev"] in ("geometry", "lap")]
+        rid += 1
     if tgeo:
         gres, gbad = judge_batches(chk, tgeo, "tgeo")
         chk.add_tlc(gres)
         for i, clause in gbad.items():
             rec = tgeo[i]
+            if rec["ev"] == "lap":
+                chk.violate({"part": "lap", "clause": clause}, "%s: one lap over a ring of %d entries: %s" % (clause, rec["n"], rec),
+                            {"part": "teardown", "entries": rec["n"], "flags": 0, "with_op": "lap", "record": rec, "clause": clause})
+                continue
             chk.violate({"part": "setup", "clause": clause}, "%s: set-up of a ring of %d requested entries (flags %d): %s" % (clause, rec["requested"], rec["flags"], rec),
                         {"part": "setup", "entries": rec["requested"], "flags": rec["flags"], "record": rec, "clause": clause})
     tbad = judge_teardown(chk, truns)
